@@ -252,8 +252,8 @@ type fakeLeaf struct {
 	e  *env
 	id uint64
 
-	mu                   sync.Mutex
-	openR, openW         int // ghost: currently open per access bit
+	mu                    sync.Mutex
+	openR, openW          int // ghost: currently open per access bit
 	totalOpen, totalClose [2]int
 }
 
